@@ -687,6 +687,16 @@ pub fn run_for(desc: &Value, ctx: &Ctx, oracle: Oracle) -> CaseOut {
                     None => out.obs.inc("check_outcome.not_reached"),
                 }
             }
+            // the same question through the command line tool (`jbk check <damaged file>`)
+            match crate::cli::check(&dir.join(fname)) {
+                Some(v) if v == "ok:true" => out.violate(
+                    json!({"kind": "check-true-after-damage", "check": "jbk check", "structure": structure, "op": d.op(), "profile": profile()}),
+                    format!("C04: `jbk check` says the pack is ok although {} altered checksummed bytes in {structure} of {fname} ({})", d.op(), s.name),
+                    json!({"changed": changed.iter().take(8).collect::<Vec<_>>()}),
+                ),
+                Some(v) => out.obs.inc(&format!("command_line_check_outcome.{}", v.split(':').next().unwrap_or("?"))),
+                None => out.obs.inc("command_line_tool_unavailable"),
+            }
             // the damaged pack's own check, when the pack can still be reached
             for o in &owners {
                 let kind = view.packs.get(*o).map(|p| p.hdr.kind).unwrap_or(0);
